@@ -136,8 +136,22 @@ impl<'p> Painter<'p> {
             }
         }
 
-        // Nothing found, try the user provided fallback, or the internal fallback.
-        if let Some(syntax) = syntax_set.find_syntax_for_file(fallback).unwrap_or(None) {
+        // Nothing found, try the user provided fallback, or the internal fallback. The fallback
+        // is looked up like a file name (whole name, then extension) but, unlike
+        // `find_syntax_for_file`, without opening a file of that name to inspect its first line.
+        let fallback_path = std::path::Path::new(fallback);
+        let fallback_name = fallback_path
+            .file_name()
+            .and_then(|n| n.to_str())
+            .unwrap_or("");
+        let fallback_ext = fallback_path
+            .extension()
+            .and_then(|x| x.to_str())
+            .unwrap_or("");
+        if let Some(syntax) = syntax_set
+            .find_syntax_by_extension(fallback_name)
+            .or_else(|| syntax_set.find_syntax_by_extension(fallback_ext))
+        {
             syntax
         } else {
             syntax_set
